@@ -14,6 +14,7 @@ import sys
 import numpy as np
 
 from c04 import bf, fb, parse_c, precision
+from c04 import gt, nan_selftest
 from common import Ctx, LeanDriver, Property, err_kind, run_property
 
 
@@ -71,7 +72,7 @@ def gen_probe_case(ctx: Ctx):
         positions = [[round(rng.uniform(-0.5, 1.5) * ext[0], 3), round(rng.uniform(-0.5, 1.5) * ext[1], 3)] for _ in range(rng.randint(1, 3))]
     return dict(kind="probe", gpts=gpts, sampling=sampling, energy=float(rng.choice([60e3, 100e3, 200e3, 300e3])),
                 cutoff=cutoff, cutoff_dist=cutoff_dist, soft=rng.random() < 0.6, aberrations=aberr, aberration_dist=dist,
-                tilt=tilt, pos_kind=pos_kind, positions=positions, lazy=rng.random() < 0.4,
+                tilt=tilt, pos_kind=pos_kind, positions=positions, lazy=rng.random() < 0.4, max_batch=rng.choice([1, 1, 2, "auto"]),
                 precision=rng.choice(["float64", "float32"]))
 
 
@@ -108,7 +109,9 @@ def build_probe(case):
         scan = abtem.GridScan(start=(0, 0), end=(ext[0] * 0.6, ext[1] * 0.6), gpts=(2, 3))
     elif case["pos_kind"] == "line":
         scan = abtem.LineScan(start=(0.1, 0.2), end=(ext[0] * 0.9, ext[1] * 0.7), gpts=3)
-    waves = probe.build(scan=scan, lazy=case["lazy"])
+    waves = probe.build(scan=scan, lazy=case["lazy"], max_batch=case.get("max_batch", "auto"))
+    if case["lazy"]:
+        case["_numblocks"] = int(np.prod(waves.array.numblocks))
     if case["lazy"]:
         waves = waves.compute()
     return waves
@@ -121,8 +124,8 @@ class C05(Property):
     trusted = [
         "FFT: fft2/ifft2 form an inverse pair with Parseval (fields of `FourierPair`)",
         "IEEE: float32/float64 evaluation stays within tolerance of the real formulas",
-        "hand composition kernel · aperture · aberrations -> normalise -> ifft2 (Props/C05.lean `probeArray`, Model/Probe.lean "
-        "`probeSpectrumF`) mirroring Probe._calculate_array / ReciprocalSpaceMultiplication, tied by correspondence of the whole "
+        "interpreter of the GENERATED operation order of Probe._calculate_array (Props/C05.lean `runOps`, Model/Probe.lean `probeSpectrumF`: what each "
+        "known call does to the array is hand-written, unknown calls are rejected), tied by correspondence of the whole "
         "reciprocal-space array; the aberration function chi is an arbitrary real function in the theorems (its polynomial is C21)",
         "ensemble plumbing (one normalisation per member over the last two axes, lazy blocks) is exercised by conformance only",
     ]
@@ -257,7 +260,8 @@ class C05(Property):
                 bad = np.abs(tot - 1) > tol
                 if not np.all(np.isfinite(tot)) or bad.any():
                     ctx.violation("probe-reciprocal-intensity-not-one", case, dict(shape=list(waves.shape), totals=tot[:8].tolist()))
-                ctx.count(f"probe:{'soft' if case['soft'] else 'hard'}:members={tot.size}:{'lazy' if case['lazy'] else 'eager'}:"
+                nblk = case.pop("_numblocks", None)
+                ctx.count(f"probe:{'soft' if case['soft'] else 'hard'}:members={tot.size}:{'lazy-blocks>1' if (nblk or 1) > 1 else 'lazy-1block' if case['lazy'] else 'eager'}:"
                           f"aberr-dist={'weighted' if isinstance((case.get('aberration_dist') or [0, 0])[1], dict) else case.get('aberration_dist') is not None}"
                           f":tilt-dist={isinstance(case['tilt'], dict)}")
             else:
@@ -278,14 +282,16 @@ class C05(Property):
                 pw = abtem.PlaneWave(gpts=tuple(case["gpts"]), sampling=tuple(case["sampling"]), energy=case["energy"],
                                      normalize=case["normalize"], tilt=tilt).build(lazy=case["lazy"])
                 arr = np.asarray(pw.compute().array if case["lazy"] else pw.array)
+                if not np.all(np.isfinite(arr)):
+                    ctx.violation("planewave-array-not-finite", case, dict(shape=list(arr.shape)))
                 if case["normalize"]:
                     tot = np.asarray(recip_intensity(arr)).reshape(-1)
-                    if np.abs(tot - 1).max() > tol:
+                    if gt(np.abs(tot - 1).max(), tol):
                         ctx.violation("planewave-reciprocal-intensity-not-one" + (":tilt-ensemble" if td else ""), case,
                                       dict(totals=tot[:6].tolist(), shape=list(arr.shape)))
                 else:
                     dev = float(np.abs(np.abs(arr) - 1).max())
-                    if dev > tol:
+                    if gt(dev, tol):
                         ctx.violation("planewave-not-unit-modulus", case, dict(max_dev=dev))
                 if case.get("propagate") and not td:
                     # a tilted plane wave keeps its modulus through vacuum (also C39)
@@ -295,7 +301,7 @@ class C05(Property):
                     w2 = FresnelPropagator().propagate(w, thickness=case["propagate"], in_place=False)
                     ref = np.abs(arr)
                     dev = float(np.abs(np.abs(np.asarray(w2.array)) - ref).max() / ref.max())
-                    if dev > (1e-9 if case["precision"] == "float64" else 1e-4):
+                    if gt(dev, (1e-9 if case["precision"] == "float64" else 1e-4)):
                         ctx.violation("tilted-planewave-modulus-changes-in-vacuum", case, dict(max_rel_dev=dev))
                 ctx.count(f"planewave:normalize={case['normalize']}:tilt={'zero' if tuple(case['tilt']) == (0.0, 0.0) else 'set'}:ensemble={td}")
 
@@ -314,6 +320,17 @@ class C05(Property):
                         propagate=rng.choice([None, 1.0, 7.5]), tilt_dist=rng.choice([None, None, "x", "y", "both", "pairs"]))
             self.oracle(ctx, case)
             ctx.case(case)
+        self.selftest(ctx)
+
+    def selftest(self, ctx: Ctx):
+        import abtem.waves as aw
+
+        pw = dict(kind="planewave", gpts=[6, 5], sampling=[0.1, 0.1], energy=1e5, tilt=[0.0, 0.0], lazy=False, precision="float64", propagate=None, tilt_dist=None)
+        pr = dict(kind="probe", gpts=[8, 8], sampling=[0.2, 0.2], energy=1e5, cutoff=20.0, cutoff_dist=None, soft=True, aberrations={}, aberration_dist=None,
+                  tilt=[0.0, 0.0], pos_kind="none", positions=None, lazy=False, precision="float64")
+        nan_selftest(ctx, "planewave", [(aw.PlaneWave, "_calculate_array", True)],
+                     [("normalize=True", lambda c: self.oracle(c, dict(pw, normalize=True))), ("normalize=False", lambda c: self.oracle(c, dict(pw, normalize=False)))])
+        nan_selftest(ctx, "probe", [(aw.Probe, "_calculate_array", True)], [("probe", lambda c: self.oracle(c, pr))])
 
     def replay(self, ctx: Ctx, case):
         self.oracle(ctx, case)
